@@ -236,7 +236,8 @@ Inductive site :=
 | SGInsert       (* Graph.insert_after/insert_before: idem, also when the reference node is not in the graph *)
 | SNodeOutputsDup   (* Node(outputs=[x, x]) accepted a repeated value (both positions claim the last index) *)
 | SNodeOutputsOwned (* Node(outputs=...) accepts a graph input / initializer: it gets a producer (I6) *)
-| SGraphNew.     (* Graph(...) constructor rejected midway *)
+| SGraphNew      (* Graph(...) constructor rejected midway *)
+| SInitUpdate.   (* initializers.update(mapping): entries before the rejected one stay stored (inherited MutableMapping.update) *)
 Definition cfg := site -> bool.
 Definition all_fixed : cfg := fun _ => true.
 
@@ -336,6 +337,29 @@ Fixpoint init_clear_n s g (fuel : nat) :=
   match fuel with 0 => s | S f =>
     match inits s g with [] => s | (k, _) :: _ => init_clear_n (fst (init_delitem s g k)) g f end end.
 Definition init_clear s g := K (init_clear_n s g (length (inits s g))).
+
+(* MutableMapping.update over (key, value) entries: self[key] = value one after the other *)
+Fixpoint init_update_seq c s (hp : vid -> bool) g (kvs : list (option name * vid)) : ow_st * res unit :=
+  match kvs with
+  | [] => K s
+  | (None, _) :: _ => R s TypeError
+  | (Some k, v) :: t => let '(s', r) := init_setitem c s hp g k v in
+                        match r with Raise e => (s', Raise e) | Ok _ => init_update_seq c s' hp g t end
+  end.
+Definition init_update (c : cfg) s hp g kvs :=
+  let '(s', r) := init_update_seq c s hp g kvs in
+  match r with
+  | Ok _ => K s'
+  | Raise e => if c SInitUpdate then R s e      (* FIXED (proposed): every entry validated first, all-or-nothing *)
+               else R s' e                      (* CURRENT: the entries before the rejected one stay stored *)
+  end.
+(* MutableMapping.popitem: the first key *)
+Definition init_popitem s g := match inits s g with [] => R s KeyError | (k, _) :: _ => init_delitem s g k end.
+(* MutableMapping.setdefault *)
+Definition init_setdefault c s hp g key v :=
+  match init_get (inits s g) key with Some _ => K s | None => init_setitem c s hp g key v end.
+(* GraphInitializers.__ior__ since 4b0e698: unsupported *)
+Definition init_ior (s : ow_st) := R s RuntimeError.
 
 (* Value.name setter *)
 Definition vset_name (c : cfg) s (hp : vid -> bool) v (nm : option name) :=
@@ -449,6 +473,21 @@ Definition g_insert (c : cfg) h g (before : bool) (ref : nid) ns :=
     K (set_seq h1 g (seq_insert_many l (if before then seq_pred ref l None else Some ref) ns))
   else if c SGInsert then R h ValueError                            (* FIXED *)
   else R (fst (adopt_seq c h g ns)) ValueError.                      (* CURRENT: names and graph pointers leak *)
+
+(* Graph.sort().  WHICH order results (and whether a cycle is found) is the subject of property C12 and is supplied by
+   the harness from the implementation's outcome; what the model fixes is HOW the result is installed: on a cycle
+   nothing is touched (ValueError); otherwise `graph.extend(reversed(sorted_nodes))` for every graph that has nodes in
+   the nest, which re-registers node and value names with that graph's name authority and moves each node to the end
+   in the given order.  Nothing else may change. *)
+Definition sort_valid (h : heap) (orders : list (gid * list nid)) : bool :=
+  forallb (fun go => forallb (fun n => onat_eqb (ngraph (hng h) n) (Some (fst go))) (snd go)) orders.
+Definition g_sort (c : cfg) h (out : option (list (gid * list nid))) :=
+  match out with
+  | None => R h ValueError
+  | Some orders =>
+    if sort_valid h orders then K (fold_left (fun h go => fst (g_extend c h (fst go) (snd go))) orders h)
+    else R h OtherError        (* not an outcome Graph.sort can have: a listed node is not in the listed graph *)
+  end.
 
 (* _check_node_safe_to_remove *)
 Definition safe_ok (h : heap) (g : gid) (ns : list nid) (n : nid) : bool :=
@@ -607,13 +646,30 @@ Definition graph_new_reject (h : heap) (gi go : list vid) (d : list (option name
        | Some e => Some e
        | None => if forallb (fun n => negb (is_some (ngraph (hng h) n))) ns then None else Some ValueError
        end.
+(* The constructor body once every argument has been validated (680d931): nothing can be rejected any more, so it is
+   written with the validated mutators (inputs.extend, outputs.extend, initializers[k] = v for every entry, name
+   registration, Graph.extend) instead of the raw container constructors; same final state, and the intermediate
+   states are unobservable because no step can raise. *)
+Definition graph_init (c : cfg) h g (gi go : list vid) (d : list (option name * vid)) (ns : list nid) : heap :=
+  let s1 := fst (io_extend c KIn (how h) (hp h) g gi) in
+  let s2 := fst (io_extend c KOut s1 (hp h) g go) in
+  let s3 := fold_left (fun s kv => match fst kv with
+                                   | Some k => fst (init_setitem c s (hp h) g k (snd kv))
+                                   | None => s end) d s2 in
+  let h1 := with_ow h s3 in
+  let h2 := reg_values c h1 g gi in
+  let h3 := reg_values c h2 g (map snd (inits (how h2) g)) in
+  let h4 := fst (g_extend c h3 g ns) in
+  with_nm h4 (nm_bump_g (hnm h4) g).
 Definition graph_new (c : cfg) h g (gi go ginit : list vid) (ns : list nid) :=
   if negb (blank_graph h g) then R h OtherError else
   let s0 := how h in
   let d := dict_of s0 ginit [] in
   let rej := graph_new_reject h gi go d ns in
-  if is_some rej && c SGraphNew then R h (match rej with Some e => e | None => ValueError end) else   (* FIXED *)
-  let '(h', r) := graph_build c h g gi go d ns in                     (* CURRENT *)
+  if c SGraphNew then                                                  (* FIXED: validate everything, then build *)
+    match rej with Some e => R h e | None => K (graph_init c h g gi go d ns) end
+  else
+  let '(h', r) := graph_build c h g gi go d ns in                     (* BEFORE 680d931 *)
   match r with
   | Ok _ => K (with_nm h' (nm_bump_g (hnm h') g))
   | Raise e =>
@@ -637,6 +693,7 @@ Inductive op :=
 | NAppend (n : nid) (ns : list nid)
 | NPrepend (n : nid) (ns : list nid)
 | GRemove (g : gid) (ns : list nid) (safe : bool)
+| GSort (g : gid) (out : option (list (gid * list nid)))
 | NReplaceInput (n : nid) (i : Z) (x : option vid)
 | NResizeInputs (n : nid) (k : Z)
 | NResizeOutputs (n : nid) (k : Z) (fresh : list vid)
@@ -658,7 +715,11 @@ Inductive op :=
 | InitDelItem (g : gid) (key : name)
 | InitPop (g : gid) (key : name)
 | InitAdd (g : gid) (v : vid)
-| InitClear (g : gid).
+| InitClear (g : gid)
+| InitPopItem (g : gid)
+| InitUpdate (g : gid) (kvs : list (option name * vid))
+| InitSetDefault (g : gid) (key : name) (v : vid)
+| InitIOr (g : gid).
 
 Definition step (c : cfg) (h : heap) (o : op) : heap * res unit :=
   match o with
@@ -672,6 +733,7 @@ Definition step (c : cfg) (h : heap) (o : op) : heap * res unit :=
   | NAppend n ns => match ngraph (hng h) n with None => R h ValueError | Some g => g_insert c h g false n ns end
   | NPrepend n ns => match ngraph (hng h) n with None => R h ValueError | Some g => g_insert c h g true n ns end
   | GRemove g ns safe => g_remove h g ns safe
+  | GSort _ out => g_sort c h out
   | NReplaceInput n i x => n_replace_input h n i x
   | NResizeInputs n k => n_resize_inputs h n k
   | NResizeOutputs n k fresh => n_resize_outputs h n k fresh
@@ -694,6 +756,10 @@ Definition step (c : cfg) (h : heap) (o : op) : heap * res unit :=
   | InitPop g key => lift_ow h (init_delitem (how h) g key)
   | InitAdd g v => lift_ow h (init_add c (how h) (hp h) g v)
   | InitClear g => lift_ow h (init_clear (how h) g)
+  | InitPopItem g => lift_ow h (init_popitem (how h) g)
+  | InitUpdate g kvs => lift_ow h (init_update c (how h) (hp h) g kvs)
+  | InitSetDefault g key v => lift_ow h (init_setdefault c (how h) (hp h) g key v)
+  | InitIOr g => lift_ow h (init_ior (how h))
   end.
 
 (* histories keep going after a Raise *)
@@ -768,6 +834,7 @@ Definition current_cfg : cfg := fun s =>
   | SNodeOutputsDup => true     (* /repo dff454e *)
   | SNodeOutputsOwned => false  (* open: known finding node-output-owned *)
   | SGraphNew => true           (* /repo 680d931 *)
+  | SInitUpdate => false        (* open: known finding init-update-partial (C06) *)
   end.
 
 (* the code as it was before any repair (pinned commit of the design phase): every defect present *)
